@@ -440,4 +440,197 @@ theorem inv_reachable {idx : Nat → Nat} {progs : List (List (List Instr))} {s 
   induction h with
   | init => exact inv_init idx progs
   | step _ hs ih => exact inv_step ih hs
+
+theorem step_iff {idx : Nat → Nat} {s s' : St} {i : Nat} {ev : Ev} :
+    step idx s i = some (ev, s') ↔
+      ∃ c a' ch' c', s.cs[i]? = some c ∧ stepC idx s.arr s.cache c = some (ev, a', ch', c') ∧
+        s' = { arr := a', cache := ch', cs := s.cs.set i c' } := by
+  simp only [step]
+  cases hi : s.cs[i]? with
+  | none => simp
+  | some c =>
+    cases hc : stepC idx s.arr s.cache c with
+    | none => simp [hc]
+    | some r =>
+      obtain ⟨ev1, a', ch', c'⟩ := r
+      simp only [hc, Option.some.injEq, Prod.mk.injEq]
+      constructor
+      · rintro ⟨rfl, rfl⟩; exact ⟨c, a', ch', c', rfl, hc, rfl⟩
+      · rintro ⟨c2, a2, ch2, c2', h1, h2, h3⟩
+        cases h1
+        rw [hc] at h2
+        simp only [Option.some.injEq, Prod.mk.injEq] at h2
+        obtain ⟨rfl, rfl, rfl, rfl⟩ := h2
+        exact ⟨rfl, h3.symm⟩
+
+theorem hier_toUnwind (idx : Nat → Nat) (c : Caller) (h : ∀ seg ∈ c.rest, segOk (hierOk idx) [] seg = true) :
+    hierC idx (toUnwind c) := by
+  rcases toUnwind_eq c with hu | hu <;> rw [hu] <;> simp [hierC, segOk] <;> exact h
+
+theorem lstep_hier {idx arr cache c ev a' ch' c'} (h : LStep idx arr cache c ev a' ch' c')
+    (hh : hierC idx c) : hierC idx c' := by
+  cases h
+  all_goals (first
+    | exact hier_toUnwind idx _ hh.1
+    | (simp [hierC, segOk] at hh ⊢; simp_all))
+
+theorem no_stuckC {idx arr cache} {c : Caller} (hp : pcOK cache c) (hnt : c.terminal = false) :
+    (stepC idx arr cache c).isSome := by
+  rcases c with ⟨pc, cur, rest, stack, book⟩
+  cases pc <;> simp [stepC, pcOK, Caller.terminal] at hp hnt ⊢ <;> (repeat' split) <;> simp_all
+
+/-- only the three lock guards can spin, and only when the guard is false -/
+theorem spin_pc {idx arr cache c a' ch' c'} (h : LStep idx arr cache c .spin a' ch' c') :
+    a' = arr ∧ ch' = cache ∧ c' = c ∧
+    ((∃ k g, c.pc = .gsAcqR k g ∧ arr (idx k) < 0) ∨ (∃ k g, c.pc = .gsAcqW k g ∧ arr (idx k) ≠ 0) ∨
+     (∃ k, c.pc = .rmAcqW k ∧ arr (idx k) ≠ 0)) := by
+  cases h <;> simp_all <;> omega
+
+theorem sumBy_pos (f : Caller → Nat) : ∀ (l : List Caller), 0 < sumBy f l → ∃ c ∈ l, 0 < f c := by
+  intro l
+  induction l with
+  | nil => intro h; simp [sumBy] at h
+  | cons a t ih =>
+    intro h
+    simp only [sumBy] at h
+    by_cases ha : 0 < f a
+    · exact ⟨a, by simp, ha⟩
+    · obtain ⟨c, hc, hpos⟩ := ih (by omega)
+      exact ⟨c, by simp [hc], hpos⟩
+
+theorem exists_max (P : Caller → Prop) (f : Caller → Nat) : ∀ (l : List Caller), (∃ c ∈ l, P c) →
+    ∃ c ∈ l, P c ∧ ∀ d ∈ l, P d → f d ≤ f c := by
+  intro l
+  induction l with
+  | nil => intro h; obtain ⟨c, hc, _⟩ := h; simp at hc
+  | cons a t ih =>
+    intro _
+    by_cases ht : ∃ c ∈ t, P c
+    · obtain ⟨m, hm, hPm, hmax⟩ := ih ht
+      by_cases ha : P a ∧ f m < f a
+      · refine ⟨a, by simp, ha.1, ?_⟩
+        intro d hd hPd
+        rcases List.mem_cons.mp hd with rfl | hd
+        · exact Nat.le_refl _
+        · have := hmax d hd hPd; omega
+      · refine ⟨m, by simp [hm], hPm, ?_⟩
+        intro d hd hPd
+        rcases List.mem_cons.mp hd with rfl | hd
+        · have : ¬ f m < f d := fun h => ha ⟨hPd, h⟩
+          omega
+        · exact hmax d hd hPd
+    · rename_i hex
+      obtain ⟨c, hc, hPc⟩ := hex
+      rcases List.mem_cons.mp hc with rfl | hc
+      · refine ⟨c, by simp, hPc, ?_⟩
+        intro d hd hPd
+        rcases List.mem_cons.mp hd with rfl | hd
+        · exact Nat.le_refl _
+        · exact absurd ⟨d, hd, hPd⟩ ht
+      · exact absurd ⟨c, hc, hPc⟩ ht
+
+/-- index of the key a caller is waiting to write-lock -/
+def wantIdx (idx : Nat → Nat) (c : Caller) : Nat :=
+  match c.pc with
+  | .gsAcqW k _ => idx k
+  | .rmAcqW k => idx k
+  | _ => 0
+
+theorem terminal_pc {c : Caller} (h : c.terminal = true) : c.pc = .idle ∧ c.stack = [] := by
+  rcases c with ⟨pc, cur, rest, stack, book⟩
+  cases pc <;> simp_all [Caller.terminal]
+
+theorem deadlock_free_core {idx : Nat → Nat} {s : St} (hI : Inv idx s)
+    (hH : ∀ (j : Nat) (c : Caller), s.cs[j]? = some c → hierC idx c)
+    (hnt : s.allTerminal = false) : ∃ i ev s', step idx s i = some (ev, s') ∧ ev ≠ .spin := by
+  apply Classical.byContradiction
+  intro hno
+  have hall : ∀ i ev s', step idx s i = some (ev, s') → ev = .spin := by
+    intro i ev s' h
+    apply Classical.byContradiction
+    intro hne
+    exact hno ⟨i, ev, s', h, hne⟩
+  -- every caller that is not terminal sits at a lock guard that is false
+  have hspin : ∀ (j : Nat) (c : Caller), s.cs[j]? = some c → c.terminal = false →
+      ((∃ k g, c.pc = .gsAcqR k g ∧ s.arr (idx k) < 0) ∨ (∃ k g, c.pc = .gsAcqW k g ∧ s.arr (idx k) ≠ 0) ∨
+       (∃ k, c.pc = .rmAcqW k ∧ s.arr (idx k) ≠ 0)) := by
+    intro j c hj hnt
+    have hsome := no_stuckC (idx := idx) (arr := s.arr) (hI.pc j c hj) hnt
+    cases hc : stepC idx s.arr s.cache c with
+    | none => simp [hc] at hsome
+    | some r =>
+      obtain ⟨ev, a', ch', c'⟩ := r
+      have hst : step idx s j = some (ev, { arr := a', cache := ch', cs := s.cs.set j c' }) :=
+        step_iff.mpr ⟨c, a', ch', c', hj, hc, rfl⟩
+      have hev := hall _ _ _ hst
+      subst hev
+      exact (spin_pc (stepC_sound idx s.arr s.cache c c' _ a' ch' hc (hI.book j c hj) (hI.pc j c hj) (hI.stack j c hj))).2.2.2
+  have hnow : ∀ (j : Nat) (c : Caller), s.cs[j]? = some c → c.pc.writeKey = none := by
+    intro j c hj
+    cases ht : c.terminal with
+    | true => rw [(terminal_pc ht).1]; rfl
+    | false =>
+      rcases hspin j c hj ht with ⟨k, g, hp, _⟩ | ⟨k, g, hp, _⟩ | ⟨k, hp, _⟩ <;> rw [hp] <;> rfl
+  have hW0 : ∀ i, s.W idx i = 0 := by
+    intro i
+    apply sumBy_zero
+    intro c hc
+    obtain ⟨j, hj⟩ := List.getElem?_of_mem hc
+    simp [Caller.wc, hnow j c hj]
+  have harr : ∀ i, s.arr i = (s.R idx i : Int) := by
+    intro i
+    rcases hI.locks i with h | h
+    · exact h.2
+    · have := hW0 i; omega
+  -- a non-terminal caller whose wanted index is maximal
+  have hex : ∃ c ∈ s.cs, c.terminal = false := by
+    simp only [St.allTerminal] at hnt
+    have := List.all_eq_false.mp hnt
+    obtain ⟨c, hc, hct⟩ := this
+    exact ⟨c, hc, by simpa using hct⟩
+  obtain ⟨c, hc, hct, hmax⟩ := exists_max (fun c => c.terminal = false) (wantIdx idx) s.cs hex
+  obtain ⟨j, hj⟩ := List.getElem?_of_mem hc
+  -- the key it wants, and the fact that somebody reads that index
+  have hwant : ∃ k, wantIdx idx c = idx k ∧ s.arr (idx k) ≠ 0 := by
+    rcases hspin j c hj hct with ⟨k, g, hp, hlt⟩ | ⟨k, g, hp, hne⟩ | ⟨k, hp, hne⟩
+    · have := harr (idx k); omega
+    · exact ⟨k, by simp [wantIdx, hp], hne⟩
+    · exact ⟨k, by simp [wantIdx, hp], hne⟩
+  obtain ⟨k, hwk, hne⟩ := hwant
+  have hRpos : 0 < s.R idx (idx k) := by have := harr (idx k); omega
+  obtain ⟨d, hd, hdpos⟩ := sumBy_pos _ _ hRpos
+  obtain ⟨jd, hjd⟩ := List.getElem?_of_mem hd
+  have hrd : ∃ k' ∈ d.reads, idx k' = idx k := by
+    apply Classical.byContradiction
+    intro hcon
+    have : d.rc idx (idx k) = 0 := (rc_zero_iff idx d (idx k)).mpr (fun k' hk' he => hcon ⟨k', hk', he⟩)
+    omega
+  obtain ⟨k', hk', hkk⟩ := hrd
+  have hdt : d.terminal = false := by
+    cases ht : d.terminal with
+    | false => rfl
+    | true =>
+      have := terminal_pc ht
+      simp [Caller.reads, this.1, this.2, Pc.readKey] at hk'
+  have hle := hmax d hd hdt
+  have hHd := hH jd d hjd
+  have hPd := hI.pc jd d hjd
+  rcases hspin jd d hjd hdt with ⟨kd, g, hp, hlt⟩ | ⟨kd, g, hp, _⟩ | ⟨kd, hp, _⟩
+  · have := harr (idx kd); omega
+  · simp [Caller.reads, hp, Pc.readKey] at hk'
+    simp [hierC, hp, hierOk] at hHd
+    simp [pcOK, hp] at hPd
+    rcases hHd.2.1 with hm | hlt
+    · exact hPd hm
+    · have := hlt k' hk'
+      rw [hwk] at hle; simp [wantIdx, hp] at hle
+      omega
+  · simp [Caller.reads, hp, Pc.readKey] at hk'
+    simp [hierC, hp, hierOk] at hHd
+    simp [pcOK, hp] at hPd
+    rcases hHd.2.1 with hm | hlt
+    · exact hPd hm
+    · have := hlt k' hk'
+      rw [hwk] at hle; simp [wantIdx, hp] at hle
+      omega
 end Coba.C19
